@@ -341,6 +341,17 @@ CLAIMED = {
              "option must be seen to have taken effect in the file.",
         technique="Coq proof (corollaries of the C09/C14/C07/C08 models) + behavioural differential runs across option combinations",
         design_ref="DESIGN.md §3 C28"),
+    "C01": dict(
+        text="S1: per class of reference (absolute word, pc-relative, GOT load, PLT call, TLS local-exec, initial-exec, general-dynamic, local-dynamic): the field value wild writes (the psABI "
+             "formula over link-time addresses), the GOT slot contents and the dynamic relocation on them, the loader's action, and the address the running program then computes. Theorem: for "
+             "every class, layout, addend, position-dependent or independent output, load base, thread pointer and TLS block placement, that address is where the definition is at run time plus "
+             "the addend; refuted for a GOT slot without its relative relocation.",
+        note="Partial: the model is a restatement of the psABI per class; which class and which slot wild picks for a given input relocation is exercised, not proved (instruction rewriting is "
+             "C14, field encodings C12/C13, allocation C23). x86-64 only at run time. Tie: generated assembly modules with marker-filled arrays, functions and TLS, one accessor per (symbol, "
+             "element, form), a C driver that checks every computed address against the marker and all forms against each other; static, static-PIE, PIE + library, shared + PIE; linked by "
+             "wild and RUN; the same programs linked by GNU ld validate the harness.",
+        technique="Coq proof (linear arithmetic over all layouts and loader choices) + self-checking generated programs linked by wild and executed, GNU ld as harness oracle",
+        design_ref="DESIGN.md §3 C01"),
     "C10": dict(
         text="S1: Gallina model of what wild writes for unwinding (an FDE is kept iff the section its pc-begin points into was loaded and is not empty; one search-table entry per kept FDE with "
              "hdr-relative signed start and FDE pointer; the table sorted by the signed start) and of the consumer (the last entry with start <= pc, then the range check — what libgcc's binary "
